@@ -6,6 +6,7 @@ package expressions
 
 import (
 	"fmt"
+	"strconv"
 
 	"github.com/osteele/liquid/values"
 )
@@ -41,6 +42,9 @@ func parse(source string) (p *parseValue, err error) {
 				err = e
 			case UndefinedFilter:
 				err = e
+			case *strconv.NumError:
+				// a numeric literal that does not fit (e.g. a 20-digit integer)
+				err = SyntaxError(e.Error())
 			default:
 				panic(r)
 			}
